@@ -36,9 +36,9 @@ type mixGen struct {
 	ethFunded    bool
 	ethContracts []*types.Address
 	poorFunded   bool
-	forceReq     bool // the next block starts with a valid request on a usable pair
+	forceReq     bool  // the next block starts with a valid request on a usable pair
 	forceTimeout int64 // ... with this timeout
-	forceRcp     bool // the next block starts with the success receipt of the scripted pair's oldest open request
+	forceRcp     bool  // the next block starts with the success receipt of the scripted pair's oldest open request
 	poorNonce    uint64
 }
 
@@ -316,6 +316,18 @@ func (g *mixGen) genBlock(h uint64) []pb.Transaction {
 			var req, rcp uint64
 			if pp != nil {
 				req, rcp = pp.Req, pp.Rcp
+			}
+			if r.Intn(9) == 0 {
+				// the next valid request of the pair (usable destination or not), sent by an account without funds: the
+				// contract runs - towards an unusable destination it answers "begin_failure" -, the fee cannot be paid,
+				// the transaction fails: for the chain and for the model it was never made, and nobody is told about it
+				ib := harness.MkIBTP(p.from, p.to, req+1, pb.IBTP_INTERCHAIN, int64([]int{0, 2, 5}[r.Intn(3)]))
+				txs = append(txs, w.IBTPTx(harness.Pauper(), ib, []byte("proof")))
+				g.note("ibtp-request-by-an-account-that-cannot-pay")
+				if !p.usable {
+					g.note("ibtp-request-to-unusable-destination-by-an-account-that-cannot-pay")
+				}
+				break
 			}
 			if r.Intn(2) == 0 || rcp >= req {
 				idx := req + 1
